@@ -42,6 +42,11 @@ const contractFileName = "zz_verif_contracts.go"
 
 // Load loads /repo (both workspace modules) with -tags verif and builds SSA.
 func Load(repoDir, verifDir string) (*Engine, error) {
+	return LoadPatterns(repoDir, verifDir, []string{"./...", "./api/..."}, []string{"GOFLAGS=", "GOWORK="})
+}
+
+// LoadPatterns loads the given package patterns from dir (used for /repo and for the self-test corpus).
+func LoadPatterns(repoDir, verifDir string, patterns []string, extraEnv []string) (*Engine, error) {
 	e := &Engine{RepoDir: repoDir, VerifDir: verifDir, fns: map[string]*ssa.Function{}, contracts: map[string]*Contract{},
 		specFns: map[string]*SpecFn{}, lay: newLayouts(), fnInfos: map[*ssa.Function]*fnInfo{}, typeIDs: map[string]int{},
 		allPkgs: map[string]*packages.Package{}, typePkgs: map[string]*types.Package{}, readSets: map[string][]string{}, writesMemo: map[*ssa.Function]int{}}
@@ -49,12 +54,12 @@ func Load(repoDir, verifDir string) (*Engine, error) {
 		Mode:       packages.LoadSyntax,
 		Dir:        repoDir,
 		BuildFlags: []string{"-tags=verif"},
-		Env:        append(os.Environ(), "GOFLAGS=", "GOPROXY=off", "GOSUMDB=off", "GOTOOLCHAIN=local", "GOWORK="),
+		Env:        append(append(os.Environ(), "GOPROXY=off", "GOSUMDB=off", "GOTOOLCHAIN=local"), extraEnv...),
 		Tests:      false,
 	}
 	e.fset = token.NewFileSet()
 	cfg.Fset = e.fset
-	pkgs, err := packages.Load(cfg, "./...", "./api/...")
+	pkgs, err := packages.Load(cfg, patterns...)
 	if err != nil {
 		return nil, err
 	}
